@@ -144,6 +144,14 @@ class Shift2(Transform):
         return val << 2
 
 
+class Shift8(Transform):
+    def forwards(self, val):
+        return val >> 8
+
+    def backwards(self, val):
+        return val << 8
+
+
 class XtensaMacroInstruction(ArtificialInstruction):
     isa = core_isa
 
@@ -236,13 +244,17 @@ class Addi(XtensaCoreInstruction):
 
 
 class Addmi(XtensaCoreInstruction):
-    """Add immediate with shift by 8"""
+    """Add immediate with shift by 8
+
+    The operand is the value that is added: a multiple of 256 in the
+    range -32768 .. 32512.
+    """
 
     tokens = [Rri8Token]
     s = Operand("s", AddressRegister, read=True)
     t = Operand("t", AddressRegister, write=True)
     imm = Operand("imm", int)
-    patterns = {"imm8": imm, "r": 0xD, "s": s, "t": t, "op0": 2}
+    patterns = {"imm8": Shift8(imm), "r": 0xD, "s": s, "t": t, "op0": 2}
     syntax = Syntax(["addmi", " ", t, ",", " ", s, ",", " ", imm])
 
 
